@@ -7,6 +7,7 @@ import (
 	"io"
 	"net"
 	"os"
+	"sort"
 	"strconv"
 	"strings"
 	"sync"
@@ -25,8 +26,10 @@ import (
 )
 
 // Key spelling: source addresses (msgMeta.Conn.RemoteAddr) are ids of the table in vlim (IPv4 id x = 127.0.0.x;
-// IPv6, IPv4-mapped, ...), the bucket key the code derives from each is observed (c11rKeys); domain id d =
-// d<d>.example; domain ids 500+ have no reachable MX.
+// IPv6, IPv4-mapped, ...), the bucket key the code derives from each is observed (c11rKeys). Sender and recipient
+// domains are SPELLING ids of the table in vlim (vlim.Dom: d<n>.example, U-label / A-label / other case / trailing
+// dot / NFD spellings of internationalised domains; 500+ have no reachable MX); the keys the target derives from
+// each spelling at every place are observed as well (c11Dk).
 func c11rV4(id int) net.IP { return net.IPv4(127, 0, byte(id/256), byte(id%256)) }
 
 var c11rKeys = vlim.NewIPKeys(c11rV4)
@@ -38,18 +41,308 @@ func c11rKeyID(scope int, k string) int {
 	if k == "" {
 		return 0
 	}
-	if strings.HasPrefix(k, "d") && strings.HasSuffix(k, ".example") {
-		n, _ := strconv.Atoi(k[1 : len(k)-len(".example")])
-		return n
-	}
-	return -2
+	return c11Dk.keyID(k)
 }
 
-func c11rDom(id int) string {
-	if id >= 500 {
-		return "bad" + strconv.Itoa(id) + ".example"
+func c11rDom(id int) string { return vlim.Dom(id) }
+
+// ---- the keys the remote target derives from a domain spelling (strengthening round 7) ----
+//
+// For every spelling of the table, once per test process, on the real target with a real limits.Group
+// (source / destination concurrency 64) in which a helper holds one permit of EVERY candidate key (all spellings
+// of the table and their usual normalisations), so that a release under any of them is visible:
+//   - Start(sender@<spelling>): the source bucket that gained a user = src key; Abort: the one that lost a
+//     user = srcRel key;
+//   - AddRcpt(rcpt@<spelling>) accepted: the destination bucket that gained a user = take key, the new key of
+//     rd.connections = conn key; Abort: the bucket that lost a user = close key;
+//   - AddRcpt(rcpt@<spelling>) with MAIL refused by the next hop: the bucket that is left with one user less
+//     than after the take = undo key.
+//
+// Key ids: the smallest spelling id with the same string; 7000+x = a normalisation of spelling x that is not
+// itself a table spelling; 5000+x / 6000+x = no bucket changed (undo / close, srcRel: the release went to a key
+// nobody holds, or did not happen). The law "what is released is released under the key it was taken under"
+// (RemKeys.Lawful of the lifecycle theorems) is the monitor C11/key-law.
+type c11DkEnt struct {
+	conn, take, undo, close, src, srcRel int
+	note                                 string
+}
+
+type c11DomKeys struct {
+	once  sync.Once
+	ent   map[int]c11DkEnt
+	byStr map[string]int
+}
+
+var c11Dk = &c11DomKeys{}
+
+func (k *c11DomKeys) keyID(s string) int {
+	if id, ok := k.byStr[s]; ok {
+		return id
 	}
-	return "d" + strconv.Itoa(id) + ".example"
+	return 8000
+}
+
+func c11Diff(before, after map[string]int) (up, down []string) {
+	for s, u := range after {
+		if u > before[s] {
+			up = append(up, s)
+		} else if u < before[s] {
+			down = append(down, s)
+		}
+	}
+	for s, u := range before {
+		if _, ok := after[s]; !ok && u > 0 {
+			down = append(down, s)
+		}
+	}
+	return
+}
+
+func (k *c11DomKeys) probe(t *testing.T, id int) (e c11DkEnt) {
+	e = c11DkEnt{id, id, id, id, id, id, ""}
+	defer func() {
+		if r := recover(); r != nil {
+			e.note += fmt.Sprintf(" panic while probing: %v;", r)
+		}
+	}()
+	s := vlim.Dom(id)
+	var cfg vlim.Cfg
+	cfg.Scopes[2] = []vlim.Lim{{Sem: true, N: 64}}
+	cfg.Scopes[3] = []vlim.Lim{{Sem: true, N: 64}}
+	cfg.Reap, cfg.MaxB = 3600, 20010
+	g, p, err := vlim.NewGroup(cfg)
+	if p != nil || err != nil {
+		e.note = fmt.Sprintf("probe group: %v %v", p, err)
+		return e
+	}
+	defer vlim.CloseGroup(g)
+	tgt := c11Target(t, g)
+	defer tgt.Close()
+	be := c11Server(t)
+	ctx, cancel := context.WithTimeout(context.Background(), 30*time.Second)
+	defer cancel()
+	helper := net.IPv4(192, 0, 2, 250)
+	for _, c := range c11DkCands {
+		if err := g.TakeMsg(ctx, helper, c); err != nil {
+			e.note += " helper TakeMsg failed: " + err.Error() + ";"
+			return e
+		}
+		if err := g.TakeDest(ctx, c); err != nil {
+			e.note += " helper TakeDest failed: " + err.Error() + ";"
+			return e
+		}
+	}
+	meta := func() *module.MsgMetadata {
+		return &module.MsgMetadata{ID: "c11-probe", DontTraceSender: true,
+			Conn: &module.ConnState{RemoteAddr: &net.TCPAddr{IP: net.IPv4(127, 0, 0, 1), Port: 1234}}}
+	}
+	one := func(l []string) (string, bool) {
+		if len(l) == 1 {
+			return l[0], true
+		}
+		return "", false
+	}
+	name := func(str string) int {
+		if x, ok := k.byStr[str]; ok {
+			return x
+		}
+		k.byStr[str] = 7000 + id
+		return 7000 + id
+	}
+
+	// sender side: Start / Abort
+	b0 := vlim.SetUsers(g, "source")
+	d, err := tgt.Start(ctx, meta(), "sender@"+s)
+	if err != nil {
+		e.note += " Start failed: " + err.Error() + ";"
+	} else {
+		b1 := vlim.SetUsers(g, "source")
+		up, _ := c11Diff(b0, b1)
+		if str, ok := one(up); ok {
+			e.src = name(str)
+		} else {
+			e.note += fmt.Sprintf(" Start(sender@%s): source buckets that gained a user: %q;", s, up)
+		}
+		d.Abort(ctx)
+		_, down := c11Diff(b1, vlim.SetUsers(g, "source"))
+		if str, ok := one(down); ok {
+			e.srcRel = name(str)
+		} else {
+			e.srcRel = 6000 + id
+		}
+		if e.srcRel != e.src {
+			e.note += fmt.Sprintf(" Close gave the source permit of sender@%s back under another key than Start took it under (source buckets that lost a user: %q, taken: %q);", s, down, up)
+		}
+	}
+	if !vlim.DomReachable(id) {
+		return e
+	}
+
+	// recipient side: AddRcpt accepted / Abort
+	be.mailMode.Store(c11OK)
+	be.connMode.Store(c11OK)
+	be.rejectRcpt.Store(false)
+	d, err = tgt.Start(ctx, meta(), "sender@probe.example")
+	if err != nil {
+		e.note += " Start failed: " + err.Error() + ";"
+		return e
+	}
+	b0 = vlim.SetUsers(g, "dest")
+	err = d.AddRcpt(ctx, "rcpt@"+s, smtp.RcptOptions{})
+	b1 := vlim.SetUsers(g, "dest")
+	up, _ := c11Diff(b0, b1)
+	if err != nil {
+		e.note += fmt.Sprintf(" AddRcpt(rcpt@%s) failed: %v;", s, err)
+	}
+	if rd, ok := d.(*remoteDelivery); ok && len(rd.connections) == 1 {
+		for ck := range rd.connections {
+			e.conn = name(ck)
+		}
+	}
+	if str, ok := one(up); ok {
+		e.take = name(str)
+	} else if err == nil {
+		e.note += fmt.Sprintf(" AddRcpt(rcpt@%s): destination buckets that gained a user: %q;", s, up)
+	}
+	d.Abort(ctx)
+	_, down := c11Diff(b1, vlim.SetUsers(g, "dest"))
+	if str, ok := one(down); ok {
+		e.close = name(str)
+	} else {
+		e.close = 6000 + id
+	}
+	if e.close != e.take && len(up) > 0 {
+		e.note += fmt.Sprintf(" Close gave the destination permit of rcpt@%s back under another key than connectionForDomain took it under (destination buckets that lost a user: %q, taken: %q);", s, down, up)
+	} else if len(up) == 0 {
+		e.close = e.take
+	}
+
+	// recipient side: MAIL refused after TakeDest
+	d, err = tgt.Start(ctx, meta(), "sender@probe.example")
+	if err != nil {
+		e.note += " Start failed: " + err.Error() + ";"
+		return e
+	}
+	be.mailMode.Store(c11Rej)
+	b0 = vlim.SetUsers(g, "dest")
+	err = d.AddRcpt(ctx, "rcpt@"+s, smtp.RcptOptions{})
+	be.mailMode.Store(c11OK)
+	b1 = vlim.SetUsers(g, "dest")
+	up, down = c11Diff(b0, b1)
+	e.undo = e.take
+	switch {
+	case err == nil:
+		e.note += " AddRcpt succeeded although the next hop refuses MAIL;"
+	case len(up) == 0 && len(down) == 0:
+	case len(up) == 1 && len(down) == 1:
+		e.undo = name(down[0])
+	default:
+		e.undo = 5000 + id
+	}
+	if e.undo != e.take {
+		e.note += fmt.Sprintf(" MAIL refused for rcpt@%s: the destination permit was not given back under the key it was taken under (buckets with a user more: %q, less: %q);", s, up, down)
+	}
+	d.Abort(ctx)
+	return e
+}
+
+var c11DkCands []string
+
+// Probe observes every spelling of the table once (idempotent).
+func (k *c11DomKeys) Probe(t *testing.T) {
+	k.once.Do(func() {
+		k.ent, k.byStr = map[int]c11DkEnt{}, map[string]int{}
+		seen := map[string]bool{}
+		for _, id := range vlim.AllDomIDs() {
+			if _, ok := k.byStr[vlim.Dom(id)]; !ok {
+				k.byStr[vlim.Dom(id)] = id
+			}
+			for _, f := range vlim.DomForms(id) {
+				if !seen[f] {
+					seen[f] = true
+					c11DkCands = append(c11DkCands, f)
+				}
+			}
+		}
+		k.byStr["probe.example"] = 8001
+		for _, id := range vlim.AllDomIDs() {
+			for _, f := range vlim.DomForms(id) {
+				if _, ok := k.byStr[f]; !ok {
+					k.byStr[f] = 7000 + id
+				}
+			}
+		}
+		for _, id := range vlim.AllDomIDs() {
+			k.ent[id] = k.probe(t, id)
+		}
+	})
+}
+
+func (k *c11DomKeys) Entry(id int) c11DkEnt {
+	if e, ok := k.ent[id]; ok {
+		return e
+	}
+	return c11DkEnt{id, id, id, id, id, id, ""}
+}
+
+// Unlawful: how the key law is broken for the spelling ("" = every release was observed under the key of the take).
+func (k *c11DomKeys) Unlawful(id int) string {
+	e := k.Entry(id)
+	if e.undo == e.take && e.close == e.take && e.srcRel == e.src {
+		return ""
+	}
+	return strings.TrimSpace(e.note)
+}
+
+// Tokens: the j.<spelling>.<conn>.<take>.<undo>.<close>.<src>.<srcRel> tokens of the spellings (only where not
+// the identity), sorted.
+func (k *c11DomKeys) Tokens(ids []int) []string {
+	ids = append([]int{}, ids...)
+	sort.Ints(ids)
+	var out []string
+	last := -1
+	for _, id := range ids {
+		if id == last {
+			continue
+		}
+		last = id
+		e := k.Entry(id)
+		if e.conn != id || e.take != id || e.undo != id || e.close != id || e.src != id || e.srcRel != id {
+			out = append(out, fmt.Sprintf("j.%d.%d.%d.%d.%d.%d.%d", id, e.conn, e.take, e.undo, e.close, e.src, e.srcRel))
+		}
+	}
+	return out
+}
+
+// c11DomLaw reports the spellings of the ops for which a release was observed under another key than the take.
+func c11DomLaw(out *vh.Out, opl string, ops []string) {
+	seen := map[int]bool{}
+	for _, id := range c11OpDoms(ops) {
+		if seen[id] {
+			continue
+		}
+		seen[id] = true
+		if d := c11Dk.Unlawful(id); d != "" {
+			out.Violation("C11/key-law", opl, fmt.Sprintf("domain spelling %d (%q): %s", id, vlim.Dom(id), d))
+		}
+	}
+}
+
+// c11OpDoms: the spelling ids the ops mention (sender of s, recipient domain of a).
+func c11OpDoms(ops []string) []int {
+	var ids []int
+	for _, o := range ops {
+		f := strings.Split(o, ".")
+		switch {
+		case f[0] == "s" && len(f) > 3:
+			d, _ := strconv.Atoi(f[3])
+			ids = append(ids, d)
+		case f[0] == "a" && len(f) > 2:
+			d, _ := strconv.Atoi(f[2])
+			ids = append(ids, d)
+		}
+	}
+	return ids
 }
 
 // ---- scripted next hop ----
@@ -203,6 +496,24 @@ func c11Zones() map[string]mockdns.Zone {
 	for d := 500; d <= 512; d++ {
 		z[fmt.Sprintf("bad%d.example.", d)] = mockdns.Zone{MX: []net.MX{{Host: "mx.nowhere.example.", Pref: 10}}}
 	}
+	// every spelling of the table under every form the code may look it up by (mockdns lower-cases the name)
+	z["mx.idn.example."] = mockdns.Zone{A: []string{"127.0.0.1"}}
+	for _, id := range vlim.AllDomIDs() {
+		if id < 100 {
+			continue
+		}
+		for _, f := range vlim.DomForms(id) {
+			name := strings.ToLower(strings.TrimSuffix(f, ".")) + "."
+			if _, ok := z[name]; ok {
+				continue
+			}
+			if vlim.DomReachable(id) {
+				z[name] = mockdns.Zone{MX: []net.MX{{Host: "mx.idn.example.", Pref: 10}}}
+			} else {
+				z[name] = mockdns.Zone{MX: []net.MX{{Host: "mx.nowhere.example.", Pref: 10}}}
+			}
+		}
+	}
 	return z
 }
 
@@ -260,7 +571,8 @@ func (c *c11RemCase) opLine() string {
 			addrs = append(addrs, a)
 		}
 	}
-	return "C11 rem " + c.cfg.String() + " " + strings.Join(append(c11rKeys.Tokens(addrs), c.ops...), " ")
+	toks := append(c11rKeys.Tokens(addrs), c11Dk.Tokens(c11OpDoms(c.ops))...)
+	return "C11 rem " + c.cfg.String() + " " + strings.Join(append(toks, c.ops...), " ")
 }
 
 func (c *c11RemCase) bump(sc, k, d int) {
@@ -432,6 +744,9 @@ func (c *c11RemCase) exec(op string) bool {
 			rd.connections[c11rDom(dd)].transactions > 0 {
 			connAge = "pooled"
 		}
+		if note == "" && f[3] != "0" && f[4] != "0" {
+			c.out.Stat("rem:addrcpt-dom:" + vlim.DomClass(dd) + ":" + connAge + ":" + c11rErr(err, cancelled))
+		}
 		if note != "" {
 			c.out.Stat("rem:addrcpt-script:" + note + ":" + connAge + ":" + c11rErr(err, cancelled))
 		}
@@ -506,6 +821,7 @@ func (c *c11RemCase) exec(op string) bool {
 
 func c11RemRun(out *vh.Out, t *testing.T, cfg vlim.Cfg, r *vh.Rng, fixed []string) {
 	be := c11Server(t)
+	c11Dk.Probe(t)
 	g, p, err := vlim.NewGroup(cfg)
 	if p != nil || err != nil {
 		if p != nil {
@@ -519,7 +835,13 @@ func c11RemRun(out *vh.Out, t *testing.T, cfg vlim.Cfg, r *vh.Rng, fixed []strin
 	c := &c11RemCase{out: out, cfg: cfg, g: g, tgt: tgt, be: be, ds: map[int]*c11Deliv{}}
 	ok := true
 	if fixed != nil {
-		fixed = vlim.StripKeyTokens(fixed)
+		fixed = vlim.StripTokens(fixed)
+		for _, id := range c11OpDoms(fixed) {
+			if !vlim.DomOK(id) {
+				out.Note(fmt.Sprintf("rem: unknown domain spelling %d", id))
+				return
+			}
+		}
 		for _, op := range fixed {
 			if ok = c.exec(op); !ok {
 				break
@@ -533,9 +855,24 @@ func c11RemRun(out *vh.Out, t *testing.T, cfg vlim.Cfg, r *vh.Rng, fixed []strin
 		for _, a := range apool {
 			out.Stat("rem:addr:" + vlim.AddrClass(a))
 		}
+		// the spellings of this case: senders and recipients draw from the same pool, so that one domain occurs
+		// under several spellings in one delivery, in several deliveries, and on both sides
+		dpool := vlim.DomPool(r.Intn, nDom)
+		for _, d := range dpool {
+			out.Stat("rem:dom:" + vlim.DomClass(d))
+		}
+		badDom := func() int { return []int{500, 501, 502, 508, 509}[r.Intn(5)] }
 		// how often the next hop loses the connection (421 / drop / time-out) instead of answering
 		lossy := []int{0, 15, 40, 70}[r.Intn(4)]
 		pool := []int{0, 0, 2, 10}[r.Intn(4)]
+		if r.Chance(15) {
+			// one domain under all its spellings, a reliable next hop and a connection pool: connections opened
+			// for one spelling are there (in the delivery, in the pool) when the next spelling comes
+			dpool = vlim.DomSiblings(1 + r.Intn(4))
+			nDom = len(dpool)
+			lossy, pool = 0, []int{2, 10}[r.Intn(2)]
+			out.Stat("rem:siblings")
+		}
 		if pool != 0 {
 			ok = c.exec(fmt.Sprintf("p.%d", pool))
 		}
@@ -560,7 +897,7 @@ func c11RemRun(out *vh.Out, t *testing.T, cfg vlim.Cfg, r *vh.Rng, fixed []strin
 			x := r.Intn(100)
 			switch {
 			case len(ids) == 0 || (len(ids) < 5 && x < 25):
-				dom := 1 + r.Intn(nDom)
+				dom := dpool[r.Intn(nDom)]
 				if r.Chance(10) {
 					dom = 0
 				}
@@ -574,13 +911,13 @@ func c11RemRun(out *vh.Out, t *testing.T, cfg vlim.Cfg, r *vh.Rng, fixed []strin
 				next++
 			case x < 75:
 				id := ids[r.Intn(len(ids))]
-				dd := 1 + r.Intn(nDom)
+				dd := dpool[r.Intn(nDom)]
 				co, mo := 1, 1
 				note := ""
 				if c.ds[id].rt {
 					co = 0
 					if r.Chance(30) {
-						dd = 500 + r.Intn(3)
+						dd = badDom()
 					}
 				} else if r.Chance(12) {
 					if pool == 0 && r.Chance(lossy) {
@@ -588,7 +925,7 @@ func c11RemRun(out *vh.Out, t *testing.T, cfg vlim.Cfg, r *vh.Rng, fixed []strin
 						// connection would be used without dialling)
 						co, note = 0, "."+r.Pick("conndrop", "conntmo")
 					} else {
-						dd, co = 500+r.Intn(3), 0
+						dd, co = badDom(), 0
 					}
 				}
 				if r.Chance(25) {
@@ -618,6 +955,9 @@ func c11RemRun(out *vh.Out, t *testing.T, cfg vlim.Cfg, r *vh.Rng, fixed []strin
 		}
 	}
 	out.Corr(c.opLine(), strings.Join(c.obs, " "))
+	if fixed != nil {
+		c11DomLaw(out, c.opLine(), c.ops)
+	}
 	if !ok || len(c.ds) != 0 {
 		return
 	}
@@ -634,17 +974,30 @@ func c11RemRun(out *vh.Out, t *testing.T, cfg vlim.Cfg, r *vh.Rng, fixed []strin
 	if n == 0 {
 		n = 2
 	}
-	got := 0
-	for i := 0; i < n; i++ {
-		err, _, p := vlim.RunCtx(context.Background(), func(ctx context.Context) error { return g.TakeDest(ctx, "d1.example") })
-		if err != nil || p != nil {
-			out.Violation("C11/quiescent-capacity", c.opLine(), fmt.Sprintf("after every delivery ended TakeDest #%d of %d: err=%v panic=%v", i+1, n, err, p))
+	// the full N again, for d1.example and for the first recipient domain of the case as it was spelled
+	probes := []string{"d1.example"}
+	for _, o := range c.ops {
+		if f := strings.Split(o, "."); f[0] == "a" {
+			dd, _ := strconv.Atoi(f[2])
+			if vlim.DomReachable(dd) && vlim.Dom(dd) != probes[0] {
+				probes = append(probes, vlim.Dom(dd))
+			}
 			break
 		}
-		got++
 	}
-	for i := 0; i < got; i++ {
-		g.ReleaseDest("d1.example")
+	for _, pd := range probes {
+		got := 0
+		for i := 0; i < n; i++ {
+			err, _, p := vlim.RunCtx(context.Background(), func(ctx context.Context) error { return g.TakeDest(ctx, pd) })
+			if err != nil || p != nil {
+				out.Violation("C11/quiescent-capacity", c.opLine(), fmt.Sprintf("after every delivery ended TakeDest(%q) #%d of %d: err=%v panic=%v", pd, i+1, n, err, p))
+				break
+			}
+			got++
+		}
+		for i := 0; i < got; i++ {
+			g.ReleaseDest(pd)
+		}
 	}
 	out.Stat("rem:quiescent-checked")
 }
@@ -685,6 +1038,35 @@ func TestVerifC11Remote(t *testing.T) {
 		}
 		return
 	}
+	// the key law, spelling by spelling: a minimal case for every spelling for which a release was observed under
+	// another key than the take (run through the ordinary path: compared with the model, probed for leaks)
+	c11Dk.Probe(t)
+	lawDst, _ := vlim.ParseCfg("-/-/-/s1/-1/20010")
+	lawSrc, _ := vlim.ParseCfg("-/-/s1/-/-1/20010")
+	for _, d := range vlim.AllDomIDs() {
+		e := c11Dk.Entry(d)
+		if e.note != "" {
+			out.Note(fmt.Sprintf("domain key probe: spelling %d (%q): %s", d, vlim.Dom(d), strings.TrimSpace(e.note)))
+		}
+		if c11Dk.Unlawful(d) == "" {
+			out.Stat("rem:key-law:ok:" + vlim.DomClass(d))
+			continue
+		}
+		out.Stat("rem:key-law:broken:" + vlim.DomClass(d))
+		var cases [][]string
+		if e.close != e.take {
+			cases = append(cases, []string{"s.1.1.1", fmt.Sprintf("a.1.%d.1.1", d), "x.1.commit"})
+		}
+		if e.undo != e.take {
+			cases = append(cases, []string{"s.1.1.1", fmt.Sprintf("a.1.%d.1.0", d), "x.1.abort"})
+		}
+		for _, ops := range cases {
+			c11RemRun(out, t, lawDst, vh.NewRng(1), ops)
+		}
+		if e.srcRel != e.src {
+			c11RemRun(out, t, lawSrc, vh.NewRng(1), []string{fmt.Sprintf("s.1.1.%d", d), "x.1.abort"})
+		}
+	}
 	n := vh.N(400) / 4
 	for i := 0; i < n; i++ {
 		r := vh.NewRng(vh.Seed()*1000003 + uint64(i) + 1300000)
@@ -702,8 +1084,13 @@ func c11RemConcCase(out *vh.Out, t *testing.T, be *c11Backend, cfg vlim.Cfg, see
 	tgt := c11Target(t, g)
 	// derived from the seed, so that the op line stays replayable: pool on/off, how often the next hop loses
 	// the connection (421 / drop / time-out) at MAIL, RCPT, DATA
+	c11Dk.Probe(t)
 	cr := vh.NewRng(seed*77 + 5)
 	apool := vlim.AddrPool(vh.NewRng(seed*31+5).Intn, 3)
+	dpool := vlim.DomPool(vh.NewRng(seed*37+11).Intn, nDom)
+	for _, d := range dpool {
+		out.Stat("remconc:dom:" + vlim.DomClass(d))
+	}
 	tgt.connReuseLimit = []int{0, 2, 10}[cr.Intn(3)]
 	lossy := []int{0, 20, 50}[cr.Intn(3)]
 	out.Stat(fmt.Sprintf("remconc:pool:%d:lossy:%d", tgt.connReuseLimit, lossy))
@@ -737,7 +1124,7 @@ func c11RemConcCase(out *vh.Out, t *testing.T, be *c11Backend, cfg vlim.Cfg, see
 			}()
 			r := vh.NewRng(seed*31 + uint64(w))
 			for round := 0; round < 3; round++ {
-				ip, dom := apool[r.Intn(3)], 1+r.Intn(nDom)
+				ip, dom := apool[r.Intn(3)], dpool[r.Intn(nDom)]
 				ctx, cancel := context.WithTimeout(context.Background(), time.Duration(20+r.Intn(400))*time.Millisecond)
 				meta := &module.MsgMetadata{ID: fmt.Sprintf("c11c-%d-%d", w, round), DontTraceSender: true,
 					Conn: &module.ConnState{RemoteAddr: &net.TCPAddr{IP: vlim.Addr(ip, c11rV4), Port: 1}}}
@@ -753,7 +1140,7 @@ func c11RemConcCase(out *vh.Out, t *testing.T, be *c11Backend, cfg vlim.Cfg, see
 				bump(2, dom, 1)
 				dests := map[int]bool{}
 				for j := r.Intn(3); j > 0; j-- {
-					dd := 1 + r.Intn(nDom)
+					dd := dpool[r.Intn(nDom)]
 					mm := c11OK
 					if r.Chance(20) {
 						mm = c11Rej
